@@ -29,12 +29,11 @@ deriving Repr, DecidableEq
 def pushLenBytes (opcode : Nat) : Nat :=
   if opcode < 0x4c then 0 else if opcode = 0x4c then 1 else if opcode = 0x4d then 2 else 4
 
-/-- decode a script into instructions, each paired with the script bytes that follow it;
-    `none` when a push runs past the end (`fuel` = script length) -/
-def decodeAux : Nat → Bytes → Option (List (Instr × Bytes))
-  | _, [] => some []
-  | 0, _ :: _ => none
-  | fuel + 1, b :: rest =>
+/-- decode one instruction: the instruction and the script bytes that follow it;
+    `none` for the empty script and when a push runs past the end -/
+def decodeOne : Bytes → Option (Instr × Bytes)
+  | [] => none
+  | b :: rest =>
     let opc := b.toNat
     if opc ≤ 0x4e then
       let lb := pushLenBytes opc
@@ -43,27 +42,23 @@ def decodeAux : Nat → Bytes → Option (List (Instr × Bytes))
         let n := if lb = 0 then opc else leValue (rest.take lb)
         let body := rest.drop lb
         if body.length < n then none
-        else (decodeAux fuel (body.drop n)).map (fun is => (⟨opc, body.take n⟩, body.drop n) :: is)
-    else (decodeAux fuel rest).map (fun is => (⟨opc, []⟩, rest) :: is)
+        else some (⟨opc, body.take n⟩, body.drop n)
+    else some (⟨opc, []⟩, rest)
 
-def decodeWithRest (s : Bytes) : Option (List (Instr × Bytes)) := decodeAux s.length s
-def decode (s : Bytes) : Option (List Instr) := (decodeWithRest s).map (·.map (·.1))
-
-/-- longest decodable prefix of instructions, and whether the whole script decoded -/
+/-- longest decodable prefix of instructions (each with the bytes that follow it), and whether the
+    whole script decoded; `fuel` ≥ script length -/
 def decodePrefix : Nat → Bytes → List (Instr × Bytes) × Bool
   | _, [] => ([], true)
   | 0, _ :: _ => ([], false)
-  | fuel + 1, b :: rest =>
-    let opc := b.toNat
-    if opc ≤ 0x4e then
-      let lb := pushLenBytes opc
-      if rest.length < lb then ([], false)
-      else
-        let n := if lb = 0 then opc else leValue (rest.take lb)
-        let body := rest.drop lb
-        if body.length < n then ([], false)
-        else let r := decodePrefix fuel (body.drop n); ((⟨opc, body.take n⟩, body.drop n) :: r.1, r.2)
-    else let r := decodePrefix fuel rest; ((⟨opc, []⟩, rest) :: r.1, r.2)
+  | fuel + 1, s =>
+    match decodeOne s with
+    | none => ([], false)
+    | some (i, after) => let r := decodePrefix fuel after; ((i, after) :: r.1, r.2)
+
+def decodeWithRest (s : Bytes) : Option (List (Instr × Bytes)) :=
+  let r := decodePrefix s.length s
+  if r.2 then some r.1 else none
+def decode (s : Bytes) : Option (List Instr) := (decodeWithRest s).map (·.map (·.1))
 
 /-- signature checking oracle of the specification (instantiated with the BIP digests + ECDSA/BIP340 in C02) -/
 structure SigOracle where
@@ -591,23 +586,27 @@ def execOp (cfg : Cfg) (op : Opcode) (executing : Bool) (after : Bytes) (pos : N
   | .OP_CHECKMULTISIGVERIFY => execMultisig cfg rm true st
   | _ => .error .BAD_OPCODE
 
+/-- the operation-count rule: every opcode above OP_16 counts, executed or not (legacy and segwit v0 only) -/
+def countOp (cfg : Cfg) (opcode : Nat) (st : St) : R St :=
+  if (cfg.sigversion == .BASE || cfg.sigversion == .WITNESS_V0) && opcode > 0x60 then
+    (if st.opCount + 1 > maxOpsPerScript then .error .OP_COUNT else .ok { st with opCount := st.opCount + 1 })
+  else .ok st
+
 /-- one instruction of the script under Bitcoin's rules -/
-def execInstr (cfg : Cfg) (i : Instr) (after : Bytes) (pos : Nat) (st : St) : R St := do
+def execInstr (cfg : Cfg) (i : Instr) (after : Bytes) (pos : Nat) (st : St) : R St :=
   let executing := st.cond.all id
   if i.data.length > maxElementSize then .error .PUSH_SIZE
-  let st ←
-    if (cfg.sigversion == .BASE || cfg.sigversion == .WITNESS_V0) && i.opcode > 0x60 then
-      (if st.opCount + 1 > maxOpsPerScript then .error .OP_COUNT else pure { st with opCount := st.opCount + 1 })
-    else pure st
-  let op := Opcode.ofNat i.opcode
-  if !cfg.allowDisabled && disabled op then .error .DISABLED_OPCODE
-  if op == .OP_CODESEPARATOR && cfg.sigversion == .BASE && hasFlag cfg.flags Flag.CONST_SCRIPTCODE then .error .OP_CODESEPARATOR
-  if executing && i.opcode ≤ 0x4e then
-    if hasFlag cfg.flags Flag.MINIMALDATA && !minimalPush i.opcode i.data then .error .MINIMALDATA
-    checkSize { st with stack := i.data :: st.stack }
-  else if executing || (0x63 ≤ i.opcode && i.opcode ≤ 0x68) then
-    execOp cfg op executing after pos st
-  else checkSize st
+  else
+    countOp cfg i.opcode st >>= fun st =>
+    let op := Opcode.ofNat i.opcode
+    if !cfg.allowDisabled && disabled op then .error .DISABLED_OPCODE
+    else if op == .OP_CODESEPARATOR && cfg.sigversion == .BASE && hasFlag cfg.flags Flag.CONST_SCRIPTCODE then .error .OP_CODESEPARATOR
+    else if executing && i.opcode ≤ 0x4e then
+      (if hasFlag cfg.flags Flag.MINIMALDATA && !minimalPush i.opcode i.data then .error .MINIMALDATA
+       else checkSize { st with stack := i.data :: st.stack })
+    else if executing || (0x63 ≤ i.opcode && i.opcode ≤ 0x68) then
+      execOp cfg op executing after pos st
+    else checkSize st
 
 /-- the domain of C01: every byte decodes, opcodes are defined (at most `maxOpcode`), pushes at most 520 bytes -/
 def inDomain (maxOpcode : Nat) (s : Bytes) : Bool :=
@@ -624,30 +623,30 @@ def isOpSuccess (o : Nat) : Bool :=
 def hasOpSuccess (allowDisabled : Bool) (s : Bytes) : Bool :=
   (decodePrefix s.length s).1.any (fun p => isOpSuccess p.1.opcode && !(allowDisabled && disabled (Opcode.ofNat p.1.opcode)))
 
-/-- result of evaluating one script: the observable state after every executed operation (and after the
-    final balance check), and the outcome -/
+/-- result of evaluating one script: the state after every executed operation, and the outcome -/
 structure Trace where
   states : List St        -- in execution order
   result : R St
 
-def evalInstrs (cfg : Cfg) : List (Instr × Bytes) → Nat → St → List St → Trace
-  | [], _, st, acc => ⟨acc.reverse, .ok st⟩
-  | (i, after) :: rest, pos, st, acc =>
+/-- execute decoded instructions in order: states after each successful one, and the outcome -/
+def evalInstrs (cfg : Cfg) : List (Instr × Bytes) → Nat → St → List St × R St
+  | [], _, st => ([], .ok st)
+  | (i, after) :: rest, pos, st =>
     match execInstr cfg i after pos st with
-    | .ok st' => evalInstrs cfg rest (pos + 1) st' (st' :: acc)
-    | .error e => ⟨acc.reverse, .error e⟩
+    | .ok st' => let r := evalInstrs cfg rest (pos + 1) st'; (st' :: r.1, r.2)
+    | .error e => ([], .error e)
 
 /-- Bitcoin's evaluation of one script on an initial stack (Core's `EvalScript`, step by step) -/
 def evalScript (cfg : Cfg) (script : Bytes) (st0 : St) : Trace :=
   if (cfg.sigversion == .BASE || cfg.sigversion == .WITNESS_V0) && script.length > maxScriptSize then ⟨[], .error .SCRIPT_SIZE⟩
   else
-    let (is, complete) := decodePrefix script.length script
-    let t := evalInstrs cfg is 0 { st0 with codeFrom := script } []
-    match t.result with
-    | .error _ => t
+    let d := decodePrefix script.length script
+    let t := evalInstrs cfg d.1 0 { st0 with codeFrom := script }
+    match t.2 with
+    | .error e => ⟨t.1, .error e⟩
     | .ok st =>
-      if !complete then ⟨t.states, .error .BAD_OPCODE⟩
-      else if !st.cond.isEmpty then ⟨t.states, .error .UNBALANCED_CONDITIONAL⟩
-      else ⟨t.states, .ok st⟩
+      if !d.2 then ⟨t.1, .error .BAD_OPCODE⟩
+      else if !st.cond.isEmpty then ⟨t.1, .error .UNBALANCED_CONDITIONAL⟩
+      else ⟨t.1, .ok st⟩
 
 end Btcdeb.Spec
